@@ -44,7 +44,7 @@ def run(tier, seed):
     F.mc(F.consts(Variant='"pk_keeps_nullable"', MaxOpts=2), "PRIMARY KEY leaves the column nullable", expect="ColumnsExact")
     cov["negative_controls"] = ["Variant=default_lost_after_ref refutes ColumnsExact", "Variant=pk_keeps_nullable refutes ColumnsExact"]
 
-    gens = [("orders@2", F.consts(WithHist="TRUE", TypeForms='{"vc","dec"}', MaxOpts=3 if not thorough else 4), True),
+    gens = [("orders@2", F.consts(WithHist="TRUE", TypeForms='{"vc","dec"}', MaxOpts=4), True),
             ("orders@1", F.consts(WithHist="TRUE", FocusAt=1, MaxOpts=2 if not thorough else 3), True),
             ("orders@3", F.consts(WithHist="TRUE", FocusAt=3, MaxOpts=2 if not thorough else 3), True),
             ("types x defaults", F.consts(WithHist="TRUE", TypeForms=alltypes, Opts=F.optset(*alldef), MaxOpts=1), False)]
@@ -52,12 +52,12 @@ def run(tier, seed):
         gens += [("check+comment", F.consts(WithHist="TRUE", MaxOpts=4, Opts=F.optset(*(F.CORE_OPTS[:3] + F.CORE_OPTS[4:7] + [("check", "c1"), ("comment", "l1"), ("comment", "l2")]))), True),
                  ("defaults x orders", F.consts(WithHist="TRUE", TypeForms='{"vc"}', MaxOpts=3, Opts=F.optset(*(alldef + [("null", "notnull"), ("unique", "u"), ("ref", "r2")]))), True),
                  ("4 columns", F.consts(WithHist="TRUE", MaxCols=4, FocusAt=4, MaxOpts=2), True)]
-    seeds = [seed * 5 + i for i in range(1 if not thorough else 3)]
+    seeds = [seed * 5 + i for i in range(2 if not thorough else 5)]
     total = uniq = 0
     sample = None
     for what, cs, extra in gens:
         g = F.mc(cs, "generation " + what)
-        n, nu, nbad = F.compare(V, g.beh, seeds, what, keep, extra_tables=extra)
+        n, nu, nbad = F.compare(V, g.beh, seeds, what, keep, extra_tables=extra, layouts=T.LAYOUTS)
         total += n
         uniq += nu
         cov["generation"].append({"config": what, "behaviours": len(g.beh), "renderings": n, "mismatches": nbad})
